@@ -200,6 +200,11 @@ func noReturnCall(info *types.Info) func(*ast.CallExpr) bool {
 func runEVT(w *World, f *Func, r evtRule) []evtFinding {
 	info := f.Pkg.TypesInfo
 	g := cfg.New(f.Body, noReturnCall(info))
+	// the label of the function's first statement, if any (target of tail self-jumps)
+	var entryLabel *ast.LabeledStmt
+	if len(f.Body.List) > 0 {
+		entryLabel, _ = f.Body.List[0].(*ast.LabeledStmt)
+	}
 	in := make([]map[string]bool, len(g.Blocks))
 	for i := range in {
 		in[i] = map[string]bool{}
@@ -370,6 +375,31 @@ func runEVT(w *World, f *Func, r evtRule) []evtFinding {
 		}
 		for si, succ := range b.Succs {
 			st2 := states
+			// `goto L` with L the label of the function's first statement is iteration written as a tail self-call
+			// (Next: "run the next statement right away"): the activation ends here exactly as it would at
+			// `return f(params…)`, and the one that follows starts from the entry like any other. The states reaching
+			// the jump are handed to ret as a relayed return and are not carried round the back edge.
+			if succ.Kind == cfg.KindLabel && entryLabel != nil && succ.Stmt == ast.Stmt(entryLabel) && b.Index != 0 {
+				at := ast.Node(entryLabel)
+				if len(b.Nodes) > 0 {
+					at = b.Nodes[len(b.Nodes)-1]
+				}
+				if r.prim != nil {
+					if evs := r.prim(&pseudo{"SELFCALL", entryLabel}); len(evs) > 0 {
+						st2 = apply(st2, evs, at)
+					}
+				}
+				if r.ret != nil {
+					synth := &ast.ReturnStmt{Return: at.End()}
+					for full := range st2 {
+						st, _ := splitState(full)
+						if msg := r.ret(st, synth, "relay"); msg != "" {
+							report(at, msg)
+						}
+					}
+				}
+				continue
+			}
 			if len(b.Succs) == 2 && len(b.Nodes) > 0 && b.Kind != cfg.KindRangeLoop {
 				if cond, ok := b.Nodes[len(b.Nodes)-1].(ast.Expr); ok {
 					var tag ast.Expr
